@@ -562,6 +562,7 @@ func runC04(cfg Config) {
 			ts.Close()
 		}
 	}
+	runC04Stores(cfg, rep, m, rng)
 	rep.Write(cfg.Out)
 }
 
